@@ -587,7 +587,7 @@ fn check_zone(name: String, offset_at: &dyn Fn(i128) -> i32, offsets: &[i32], pr
         // wall -> instants: the instant's own wall-clock reading, and readings around it
         for dw in [0i128, 1, -1, 1800, -1800, 3599, -3600, 7200] {
             let w = t + offset_at(t) as i128 + dw;
-            if boundaries.iter().any(|&b| offsets.iter().any(|&o| w == b + o as i128)) { continue; }     // the documented boundary second
+            if boundaries.iter().any(|&b| w == b + offset_at(b - 1) as i128) { continue; }     // the documented boundary second: transition time read with the offset in effect before it
             let wl = match ndt_of(w) { Some(x) => x, None => continue };
             let mut cands: Vec<i128> = offsets.iter().map(|&o| w - o as i128).filter(|&c| offset_at(c) as i128 == w - c).collect();
             cands.sort(); cands.dedup();
@@ -706,6 +706,57 @@ fn twin_tz(r: &mut Rng) {
             } }
         });
     }
+    // --- C16: truncated / inconsistent files are rejected (observable as the fallback zone), well-formed variants are accepted
+    {
+        use chrono::Local;
+        let probe = ndt_of(500_000).unwrap();                                   // between the first two transitions of the base file: type 0 = +01:00
+        let fallback = std::sync::Arc::new(std::sync::Mutex::new(0i32));
+        { let fb = fallback.clone(); run_zone(":/nonexistent/verif-twin".to_string(), move || { *fb.lock().unwrap() = Local.offset_from_utc_datetime(&probe).local_minus_utc(); }); }
+        let fb = *fallback.lock().unwrap();
+        let h2 = base.windows(5).rposition(|w| w == b"TZif2").unwrap();
+        let foot = base.len() - b"\nCET-1CEST,M3.5.0,M10.5.0/3\n".len();
+        let mut variants: Vec<(String, Vec<u8>, bool)> = vec![("base file".into(), base.clone(), true)];
+        for cut in 1..base.len() { variants.push((format!("truncated to {} bytes", cut), base[..cut].to_vec(), false)); }
+        let mut set = |name: &str, pos: usize, val: u8, ok: bool| { let mut m = base.clone(); m[pos] = val; variants.push((name.to_string(), m, ok)); };
+        set("bad magic", 0, b'X', false); set("bad magic in the second header", h2 + 1, b'z', false); set("unsupported version 1", 4, b'1', false); set("version 3", 4, b'3', true);
+        set("type count 0 (v2 header)", h2 + 20 + 19, 0, false); set("char count 0 (v2 header)", h2 + 20 + 23, 0, false); set("isut count mismatch", h2 + 20 + 3, 1, false);
+        let d2 = h2 + 44;                                                      // v2 data: 3 x 8 time bytes, 3 index bytes, 2 x 6 type bytes, 8 chars, 2 isstd, 2 isut
+        set("transition type index out of bounds", d2 + 24, 2, false); set("isdst = 2", d2 + 27 + 4, 2, false); set("abbreviation index out of bounds", d2 + 27 + 5, 8, false);
+        set("abbreviation with an invalid character", d2 + 39, b'!', false); set("(isstd, isut) = (0, 1)", d2 + 47 + 2, 1, false);
+        { let mut m = base.clone(); m[d2 + 7] = 0xA0; m[d2 + 6] = 0xBB; m[d2 + 5] = 0x0D; variants.push(("transitions not increasing".into(), m, false)); }
+        { let mut m = base.clone(); m.remove(foot); variants.push(("footer without the leading newline".into(), m, false)); }
+        { let mut m = base.clone(); m.pop(); variants.push(("footer without the trailing newline".into(), m, false)); }
+        { let mut m = base.clone(); m.truncate(foot); m.extend_from_slice(b"\n\n"); variants.push(("empty footer".into(), m, false)); }   // no rule: inconsistent? last transition then governs -> accepted; expectation set below
+        variants.last_mut().unwrap().2 = true;
+        { let mut m = base.clone(); m.truncate(foot); m.extend_from_slice(b"\n:CET\n"); variants.push(("footer starting with ':'".into(), m, false)); }
+        for (vi, (name, bytes, ok)) in variants.into_iter().enumerate() {
+            let path = dir.join(format!("v{}.tzif", vi));
+            std::fs::write(&path, &bytes).ok();
+            let got = std::sync::Arc::new(std::sync::Mutex::new(None));
+            { let g = got.clone(); run_zone(format!(":{}", path.display()), move || { *g.lock().unwrap() = guard(|| Local.offset_from_utc_datetime(&probe).local_minus_utc()).ok(); }); }
+            let g = *got.lock().unwrap();
+            case();
+            let want = if ok { 3600 } else { fb };
+            if g != Some(want) { found("TZif reader accept/reject", name.clone(), format!("offset {:?} at t=500000", g), format!("{} (offset {})", if ok { "accepted" } else { "rejected -> fallback zone" }, want)); }
+        }
+    }
+    // --- TZif v3 footers with extended rule times (negative and beyond 24 h), read through a file
+    for (zi, (st, et)) in [(-5400i32, 95_400i32), (-3600, 7200), (93_600, -2_700), (-601_200, 601_200)].iter().enumerate() {
+        let rule = Rule { std: 3600, dst: 7200, start: RD::M(3, 5, 0), st: *st, end: RD::M(10, 5, 0), et: *et };
+        let mut f: Vec<u8> = vec![];
+        for wide in [false, true] { f.extend_from_slice(b"TZif3"); f.extend_from_slice(&[0u8; 15]); for c in [0u32, 0, 0, 0, 1, 4] { f.extend_from_slice(&c.to_be_bytes()); } let _ = wide; f.extend_from_slice(&3600i32.to_be_bytes()); f.push(0); f.push(0); f.extend_from_slice(b"AAA\0"); }
+        f.push(b'\n'); f.extend_from_slice(rule.tz().as_bytes()); f.push(b'\n');
+        let path = dir.join(format!("x{}.tzif", zi));
+        std::fs::write(&path, &f).ok();
+        let name = format!(":{}", path.display());
+        let rl = rule.clone(); let nm = format!("{} footer={}", name, rule.tz());
+        run_zone(name, move || {
+            let mut probes: Vec<i128> = vec![]; let mut bounds: Vec<i128> = vec![];
+            for y in [1999i128, 2024, 2037] { for (u, _) in rl.events(y) { bounds.push(u); for d in [-3601i128, -1, 0, 1, 1799, 3600] { probes.push(u + d); } } }
+            let r2 = rl.clone();
+            check_zone(nm, &move |t| r2.offset_at(t), &[rl.std, rl.dst], &probes, &bounds);
+        });
+    }
     let tzs = ["EST5EDT,M3.2.0,M11.1.0", "CET-1CEST,M3.5.0,M10.5.0/3", "AAA-3", "<+03>-3", "AAA5BBB,J60/25,J300", "AAA5BBB,0/0,365/24:59:59"];
     let alphabet: Vec<char> = "0123456789,./:+-<>MJAZaz \u{00e9}".chars().collect();
     for b in tzs { let cs: Vec<char> = b.chars().collect(); for i in 0..=cs.len() { for &c in &alphabet {
@@ -766,6 +817,15 @@ fn twin_parsed_zone() {
 fn twin_parsed(r: &mut Rng) {
     use chrono::format::Parsed;
     twin_parsed_zone();
+    // extreme timestamps / offsets: an error, never a panic
+    for ts in [i64::MAX, i64::MAX - 1, i64::MAX - 86_400, i64::MIN, i64::MIN + 1, i64::MIN + 86_400, 8_210_266_876_799, 8_210_266_876_800, -8_334_601_228_800, -8_334_601_228_801] { for off in [0i32, 1, -1, 3600, -3600, 86_399, -86_399, i32::MAX, i32::MIN] {
+        let mut p = Parsed::new(); p.timestamp = Some(ts);
+        case();
+        if guard(|| { let _ = p.to_naive_datetime_with_offset(off); }).is_err() { found("Parsed::to_naive_datetime_with_offset", format!("timestamp={} offset={}", ts, off), format!("panic: {}", last_panic()), "Ok or Err".into()); }
+        p.offset = Some(off);
+        case();
+        if guard(|| { let _ = p.to_datetime(); let _ = p.to_datetime_with_timezone(&Utc); let _ = p.to_datetime_with_timezone(&FixedOffset::east_opt(3600).unwrap()); }).is_err() { found("Parsed::to_datetime", format!("timestamp={} offset={}", ts, off), format!("panic: {}", last_panic()), "Ok or Err".into()); }
+    } }
     let xs = ndt_grid(r);
     let offs = [0i32, 3600, -3600, 19800, -12600, 86399, -86399, 1];
     for (i, &x) in xs.iter().enumerate() { for rep in 0..6u64 {
@@ -848,7 +908,7 @@ fn twin_parsed(r: &mut Rng) {
 fn twin_strings(r: &mut Rng) {
     use chrono::format::StrftimeItems;
     let pieces = ["%", "%Y", "%-", "%_", "%0", "%:", "%::", "%:::", "%#", "%.", "%.3", "%.3f", "%3", "%3f", "%9f", "%+", "%z", "%:z", "%Z", "%s", "%c", "%D", "%F", "%T", "%%", "%n", "%t", "%A", "%b", "%p", "%e", "%j",
-                  "%U", "%G", "%V", "%q", "%E", "%O", "%!", "%\u{00e9}", "\u{00e9}", "\u{1F600}", " ", "  ", "\t", "-", ":", "T", "Z", "+", "00", "1", "99999999999999999999", "2024", "12", "31", "Mon", "monday", "Jan", "PM", "\u{2212}", "\0", "(", ")", "\\", ","];
+                  "%U", "%G", "%V", "%q", "%E", "%O", "%!", "%\u{00e9}", "\u{00e9}", "\u{1F600}", " ", "  ", "\t", "\u{3000}", "\u{00a0}", "\u{2002}", "\u{1680}", "\u{000b}", "\u{2028}", "\u{0085}", "-", ":", "T", "Z", "+", "00", "1", "99999999999999999999", "2024", "12", "31", "Mon", "monday", "Jan", "PM", "\u{2212}", "\0", "(", ")", "\\", ","];
     let texts = ["2024-02-29T23:59:60.5+01:00", "Tue, 1 Jul 2003 10:52:37 +0200", "2024-01-01", "23:59:59.999999999", "2024-01-01 00:00:00 UTC", "Wed, 02 Jan (a (nested) comment) 2013 10:52:37 GMT", "+262143-01-01", "-262144-12-31", "12:00:60", "Jul 8 2001"];
     let mut inputs: Vec<String> = texts.iter().map(|s| s.to_string()).collect();
     for _ in 0..1500 { let n = 1 + r.next() % 6; let mut s = String::new(); for _ in 0..n { s += pieces[(r.next() % pieces.len() as u64) as usize]; } inputs.push(s); }
